@@ -155,12 +155,24 @@ macro_rules! dispatch_impl {
                 $($id => Some(run_case::<$t>(bytes)),)*
                 25 => Some(run_payload_body(25, bytes)),
                 26 => Some(run_payload_body(26, bytes)),
-                _ => None,
+                _ => dispatch_gen(id, bytes),
             }
         }
     };
 }
 types!(dispatch_impl);
+
+// derived types whose schema terms are generated by translators/gen_chain_schemas.py (ids from 200)
+include!("gen_types.rs");
+macro_rules! gen_dispatch_impl {
+    ($($id:literal => $t:ty),*) => {
+        fn dispatch_gen(id: u32, bytes: &[u8]) -> Option<Out> {
+            match id { $($id => Some(run_case::<$t>(bytes)),)* _ => None }
+        }
+        fn gen_ids() -> Vec<(u32, &'static str)> { vec![$(($id, stringify!($t))),*] }
+    };
+}
+gen_types!(gen_dispatch_impl);
 
 /// Types covered by the direct oracles only (no schema term): key = type name.
 macro_rules! unmodelled {
@@ -210,11 +222,11 @@ unmodelled!(named_impl);
 
 // ---------------------------------------------------------------- pool of opaque leaves
 struct Pool { ed_pk: Vec<Vec<u8>>, vrf_pk: Vec<Vec<u8>>, bls_pk: Vec<Vec<u8>>, dlog: Vec<Vec<u8>>, blsproof: Vec<Vec<u8>>,
-              cred_id: Vec<Vec<u8>>, elg_pk: Vec<Vec<u8>>, bakers: Vec<(BakerAddKeysPayload, BakerUpdateKeysPayload, ConfigureBakerKeysPayload)>, keypairs: Vec<KeyPair> }
+              cred_id: Vec<Vec<u8>>, elg_pk: Vec<Vec<u8>>, g1: Vec<Vec<u8>>, bakers: Vec<(BakerAddKeysPayload, BakerUpdateKeysPayload, ConfigureBakerKeysPayload)>, keypairs: Vec<KeyPair> }
 
 fn make_pool(seed: u64) -> Pool {
     let mut rng = StdRng::seed_from_u64(seed ^ 0x5eed_c05);
-    let mut p = Pool { ed_pk: vec![], vrf_pk: vec![], bls_pk: vec![], dlog: vec![], blsproof: vec![], cred_id: vec![], elg_pk: vec![], bakers: vec![], keypairs: vec![] };
+    let mut p = Pool { ed_pk: vec![], vrf_pk: vec![], bls_pk: vec![], dlog: vec![], blsproof: vec![], cred_id: vec![], elg_pk: vec![], g1: vec![], bakers: vec![], keypairs: vec![] };
     for i in 0..4u8 {
         let kp = BakerKeyPairs::generate(&mut rng);
         let sender = AccountAddress([i; 32]);
@@ -246,7 +258,11 @@ fn make_pool(seed: u64) -> Pool {
         let gen = concordium_base::id::constants::ArCurve::generate(&mut rng);
         let sk = concordium_base::elgamal::SecretKey::generate(&gen, &mut rng);
         p.elg_pk.push(to_bytes(&concordium_base::elgamal::PublicKey::from(&sk)));
+        p.g1.push(to_bytes(&gen));
+        p.g1.push(to_bytes(&concordium_base::id::constants::ArCurve::generate(&mut rng)));
     }
+    { use concordium_base::curve_arithmetic::Curve; p.g1.push(to_bytes(&concordium_base::id::constants::ArCurve::zero_point())); }
+    let extra: Vec<Vec<u8>> = p.cred_id.clone(); p.g1.extend(extra);
     p
 }
 
@@ -559,6 +575,7 @@ fn check_out(key: &str, input: &[u8], o: &Out, viol: &mut Vec<serde_json::Value>
 fn fuzz(seed: u64, n: u64) {
     let mut keys: Vec<String> = named_types().iter().map(|s| s.to_string()).collect();
     for id in 1..=MAX_ID { keys.push(id.to_string()); }
+    for (id, _) in gen_ids() { keys.push(id.to_string()); }
     let pool = make_pool(seed);
     let mut g = G { r: Rng::new(seed ^ 0x77), pool: &pool };
     for (ti, key) in keys.iter().enumerate() {
@@ -892,7 +909,7 @@ fn main() {
     match mode {
         "pool" => {
             let p = make_pool(seed);
-            for (k, l) in [(1, &p.ed_pk), (2, &p.vrf_pk), (3, &p.bls_pk), (4, &p.dlog), (5, &p.blsproof), (7, &p.cred_id), (8, &p.elg_pk)] {
+            for (k, l) in [(1, &p.ed_pk), (2, &p.vrf_pk), (3, &p.bls_pk), (4, &p.dlog), (5, &p.blsproof), (7, &p.cred_id), (8, &p.elg_pk), (9, &p.g1)] {
                 for e in l.iter() { println!("{} {}", k, hex(e)); }
             }
         }
@@ -938,7 +955,7 @@ fn main() {
         }
         "fuzz" => fuzz(seed, n),
         "variants" => variants(seed, n),
-        "types" => { println!("{}", json!({"unmodelled": named_types()})); }
+        "types" => { println!("{}", json!({"unmodelled": named_types(), "generated": gen_ids().iter().map(|(i, t)| json!([i, t])).collect::<Vec<_>>()})); }
         _ => { eprintln!("usage: c05 pool|gen|run|fuzz|variants|types ..."); std::process::exit(2); }
     }
 }
